@@ -135,3 +135,126 @@ def nan_table(ctx, rule, modules, cls, getters, nfield, spec, extra_fields=None,
                         + f'; extracted row {dict(zip(map(str, counts), row))}', where=f'{dc.name}.{g}')
     ctx.exhaustive[f'{rule} {cls}: count classes x getters'] = True
     return cells
+
+
+# ----------------------------------------------------------------------------- convex mean update (R9.6 / R10.6)
+def _flatten_mul(s, atom, out):
+    d = s.defs.get(atom)
+    if d and d[0] == 'mul':
+        _flatten_mul(s, d[1], out)
+        _flatten_mul(s, d[2], out)
+    else:
+        out.append(atom)
+
+
+def _is_sub_of(s, atom, x, m):
+    """atom is (x - m) by definition (operands compared as atoms or through equal definitions)"""
+    d = s.defs.get(atom)
+    if not d or d[0] != 'sub':
+        return False
+    def same(a, b):
+        return a == b or (s.defs.get(a) is not None and s.defs.get(a) == s.defs.get(b)) or s.rel.possible(a, b) == {'='}
+    return same(d[1], x) and same(d[2], m)
+
+
+def convex_update(ctx, rule, modules, cls, mean_field, acc_field, value_param, axioms):
+    """The sign axiom `acc >= 0` of a variance accumulator is justified structurally: on every accepting path of
+    register() the mean moves by a convex step  M1 = M0 + c*(x - M0), 0 <= c <= 1  (c = 1/n with n >= 1, or w/W with
+    0 <= w <= W), and the accumulator grows by  k * (x - M0) * (x - M1)  with k >= 0.  Then the increment equals
+    k*(1-c)*(x-M0)^2 >= 0, also in floating point, because M1 is computed by one rounded convex step from M0 towards x."""
+    from .numeric import State
+    prog = Program(ctx.prog, set(modules))
+    an = Analyser(prog, axioms=axioms, max_depth=12)
+    inv = an.class_invariant(cls)
+    st = an.instantiate(cls, inv)
+    m0 = st.fld.get(mean_field)
+    a0 = st.fld.get(acc_field)
+    if m0 is None or a0 is None:
+        raise AnalysisError(f'anchor vanished: {cls}.{mean_field} / {acc_field}')
+    ci, fn = prog.resolve(cls, 'register')
+    if fn is None:
+        raise AnalysisError(f'anchor vanished: {cls}.register')
+    an.cur = [(cls, cls, '<entry>')]
+    # free parameters; remember the atom of the observation value
+    res = an.inline(st, cls, ci.name, fn, [], {}, None, free_params=True)
+    problems = []
+    updated = 0
+    for (rs, _ra) in res:
+        m1 = rs.fld.get(mean_field)
+        a1 = rs.fld.get(acc_field)
+        if a1 == a0 and m1 == m0:
+            continue                        # path that does not accumulate (e.g. zero weight)
+        updated += 1
+        ctx.examined()
+        # the value atom: whatever the mean step subtracts M0 from
+        dm = rs.defs.get(m1)
+        c_ok = False
+        x = None
+        why = f'mean is set to `{_show(rs, m1)}`, not to old_mean + c*(x - old_mean)'
+        if dm and dm[0] == 'add' and (dm[1] == m0 or dm[2] == m0):
+            k = dm[2] if dm[1] == m0 else dm[1]
+            dk = rs.defs.get(k)
+            if dk and dk[0] == 'div':
+                dd = rs.defs.get(dk[1])
+                if dd and dd[0] == 'sub' and dd[2] == m0:
+                    x = dd[1]
+                    n_iv = rs.iv(dk[2])
+                    c_ok = (not n_iv.empty) and n_iv.lo >= 1.0 and not n_iv.nan
+                    why = f'step divisor in {n_iv}, need >= 1'
+            elif dk and dk[0] == 'mul':
+                for (c_at, d_at) in ((dk[1], dk[2]), (dk[2], dk[1])):
+                    dd = rs.defs.get(d_at)
+                    if dd and dd[0] == 'sub' and dd[2] == m0:
+                        x = dd[1]
+                        dc = rs.defs.get(c_at)
+                        civ = rs.iv(c_at)
+                        if civ.ge0() and civ.hi <= 1.0:
+                            c_ok = True
+                        elif dc and dc[0] == 'div':
+                            w, W = dc[1], dc[2]
+                            if rs.iv(w).ge0() and rs.iv(W).gt0() and rs.rel.possible(w, W) <= {'<', '='}:
+                                c_ok = True
+                        why = 'step factor is not proved to lie in [0, 1]'
+        if not c_ok:
+            problems.append(why)
+            continue
+        da = rs.defs.get(a1)
+        inc = None
+        if da and da[0] == 'add' and (da[1] == a0 or da[2] == a0):
+            inc = da[2] if da[1] == a0 else da[1]
+        if inc is None:
+            problems.append(f'accumulator is set to `{_show(rs, a1)}`, not incremented')
+            continue
+        factors = []
+        _flatten_mul(rs, inc, factors)
+        f_old = [f for f in factors if _is_sub_of(rs, f, x, m0)]
+        f_new = [f for f in factors if _is_sub_of(rs, f, x, m1)]
+        rest = [f for f in factors if f not in f_old[:1] + f_new[:1]]
+        if len(f_old) < 1 or len(f_new) < 1 or not all(rs.iv(f).ge0() and not rs.iv(f).nan for f in rest):
+            problems.append('accumulator increment is not k*(x - old_mean)*(x - new_mean) with k >= 0')
+    ok = updated > 0 and not problems
+    ctx.ob(rule, f'{cls}.register:{acc_field}', ok,
+           sample=f'{cls}.register: {updated} accumulating path(s); mean step convex and {acc_field} += k*(x-old)*(x-new): {ok}')
+    if not ok:
+        dc, f2 = ctx.prog.resolve(cls, 'register')
+        ctx.finding(rule, f'{cls}.register:{acc_field}:not-convex', dc, f2,
+                    f'the sign of {acc_field} (assumed >= 0 by every variance / stdev / skewness guard) is not guaranteed: '
+                    + ('; '.join(sorted(set(problems))) if problems else 'no accumulating path found')
+                    + '. With a mean that is not a single convex step from the old mean towards the observation, (x-old)*(x-new) can be negative by rounding: '
+                      'variance < 0, sqrt raises, zero-variance guards are bypassed', where=f'{dc.name}.register')
+    return ok
+
+
+def _show(s, atom, depth=0):
+    for n, a in s.fld.items():
+        if a == atom:
+            return f'self.{n}'
+    for n, a in s.env.items():
+        if a == atom:
+            return n
+    d = s.defs.get(atom)
+    if not d or depth > 3:
+        return '<old value>' if not d else '…'
+    if d[0] == 'const':
+        return repr(d[1])
+    return d[0] + '(' + ', '.join(_show(s, x, depth + 1) if isinstance(x, int) else str(x) for x in d[1:]) + ')'
